@@ -52,6 +52,18 @@ func runC08(a *A) {
 	c08R2(a)
 	c08R3(a, r)
 	c08R4(a)
+	// R5: the conversion of events into delivered objects keeps no package-level state (shared tables, pooled objects)
+	{
+		w := a.W
+		roots := []*ssa.Function{w.method(w.Root, "Streamer", "parseEvents"), w.method(w.Root, "slaveConnection", "readBinlogEvent"), w.fn(w.Repl, "CellBytes")}
+		if r != nil {
+			roots = append(roots, r.ReadEvent)
+		}
+		if rp := resolveRolesG(newA(w, "C08", a.Tier), "C08-R0", "p"); rp != nil {
+			roots = append(roots, rp.Parser)
+		}
+		statelessRule(a, "C08-R5", "the streamer's conversion path", roots, w.Root, w.Repl)
+	}
 }
 
 var deliveredTypes = []string{"Transaction", "StreamEvent", "RowData", "ColumnData"}
